@@ -26,6 +26,8 @@ enum K {
     Stream,
     /// a value of a structure declared inside the function (with its `impl ZipStreamVisitor`)
     Local(String),
+    /// a `Result<(), _>` bound by `let r = f(..);` (no `?`)
+    Res(ErrK),
     Other,
 }
 
@@ -39,6 +41,10 @@ enum ErrK {
 struct EInfo {
     err: ErrK,
     params: Vec<String>,
+    /// the Lean name
+    lean: String,
+    /// a collector (`Basic/RsX.lean`): its `&mut Vec` parameter is observable after an `Err`
+    collector: bool,
 }
 
 thread_local! {
@@ -63,6 +69,8 @@ struct X {
     locals: HashMap<String, (String, Vec<(K, String)>)>,
     /// the tokens of the function body that follow the statement being translated (look-ahead for `Vec::new()`)
     body: Option<Block>,
+    /// translating a collector: its one loop becomes `Rs.X.forRangeK`
+    k_loop: bool,
 }
 
 fn segs(p: &Path) -> Vec<String> {
@@ -341,6 +349,18 @@ impl X {
                         return Ok((t, k));
                     }
                 }
+                if let Some(v) = ident_of(&t.expr) {
+                    if let Some((K::Res(ek), _, _)) = self.vars.get(&v).cloned() {
+                        let c = match (&ek, self.zip_result) {
+                            (ErrK::Io, true) => format!("Rs.X.io eo.io (Rs.X.ofRes {v})"),
+                            (ErrK::Zip, true) | (ErrK::Io, false) => format!("Rs.X.ofRes {v}"),
+                            (ErrK::Zip, false) => return Err("`?` on a ZipResult in a function returning io::Result".into()),
+                        };
+                        let t = self.fresh();
+                        self.emit(format!("let {t} ← {c}"));
+                        return Ok((t, K::Other));
+                    }
+                }
                 let (c, k, ek, wb) = self.call(&t.expr)?;
                 let c = match (&ek, self.zip_result) {
                     (ErrK::Io, true) => format!("Rs.X.io eo.io ({c})"),
@@ -471,6 +491,56 @@ impl X {
         f.found.ok_or_else(|| format!("`{v} = Vec::new()` whose element type is not fixed by a translated callee"))
     }
 
+    /// `let r = f(..);` for a translated `f` that returns a `Result` (no `?`): the `Result` as a value
+    fn let_result(&mut self, v: &str, mutable: bool, e: &Expr) -> R<Option<()>> {
+        let (name, args, is_method): (String, Vec<&Expr>, bool) = match e {
+            Expr::MethodCall(m) => {
+                if ident_of(&m.receiver).as_deref() != Some("self") { return Ok(None); }
+                (m.method.to_string(), m.args.iter().collect(), true)
+            }
+            Expr::Call(c) => match &*c.func {
+                Expr::Path(p) if p.path.segments.len() == 1 => (path_last(&p.path), c.args.iter().collect(), false),
+                _ => return Ok(None),
+            },
+            _ => return Ok(None),
+        };
+        let info = match EFNS.with(|x| x.borrow().get(&name).cloned()) { Some(i) => i, None => return Ok(None) };
+        if mutable || info.params.len() != args.len() {
+            return Err(format!("let of the result of `{name}`"));
+        }
+        if is_method != info.collector {
+            return Err(format!("call of `{name}`"));
+        }
+        let mut xs = vec![];
+        let mut wb: Option<String> = None;
+        for a in &args {
+            if matches!(a, Expr::Reference(rf) if rf.mutability.is_some()) {
+                let w = ident_of(a).ok_or("`&mut` argument")?;
+                if !matches!(self.vars.get(&w), Some((K::Vec, _, true))) || wb.is_some() {
+                    return Err("`&mut` argument that is not the one mutable vector".into());
+                }
+                wb = Some(w);
+            }
+            xs.push(self.expr(a)?.0);
+        }
+        if info.collector {
+            if self.vars.get("self").map(|x| &x.0) != Some(&K::Src) {
+                return Err("collector called outside the seekable archive".into());
+            }
+            let w = wb.ok_or("collector without its `&mut` vector")?;
+            let t = self.fresh();
+            self.emit(format!("let ({v}, {t}) ← Rs.X.keep ({} ops eo self {})", info.lean, xs.join(" ")));
+            self.emit(format!("{w} := {t}"));
+        } else {
+            if wb.is_some() {
+                return Err("`&mut` argument of a function that is not a collector".into());
+            }
+            self.emit(format!("let {v} ← Rs.X.attempt ({} ops eo {})", info.lean, xs.join(" ")));
+        }
+        self.vars.insert(v.to_string(), (K::Res(info.err), String::new(), false));
+        Ok(Some(()))
+    }
+
     /// outer mutable variables a loop body changes (`v.push(..)`, `v = ..`, `io::copy(&mut v, ..)` are the writes of
     /// the subset)
     fn loop_state(&self, body: &Block) -> Vec<String> {
@@ -541,7 +611,7 @@ impl X {
         };
         let st_val = match state.len() { 0 => "()".to_string(), 1 => state[0].clone(), _ => format!("({})", state.join(", ")) };
         // the body, as its own definition
-        let mut sub = X { lean_name: self.lean_name.clone(), lines: vec![], indent: 1, n: self.n, vars: self.vars.clone(), zip_result: self.zip_result, aux: vec![], n_loops: self.n_loops, ret_extra: vec![], locals: self.locals.clone(), body: self.body.clone() };
+        let mut sub = X { lean_name: self.lean_name.clone(), lines: vec![], indent: 1, n: self.n, vars: self.vars.clone(), zip_result: self.zip_result, aux: vec![], n_loops: self.n_loops, ret_extra: vec![], locals: self.locals.clone(), body: self.body.clone(), k_loop: false };
         let (xname, xty) = match &it {
             It::Range(_, _) => {
                 let i = match &*fl.pat { Pat::Ident(id) => id.ident.to_string(), Pat::Wild(_) => "_i".to_string(), _ => return Err("loop pattern".into()) };
@@ -573,6 +643,32 @@ impl X {
         d.push('\n');
         self.aux.push(d);
         let cap_args: String = captured.iter().map(|(v, _)| format!(" {v}")).collect();
+        if self.k_loop {
+            // the loop of a collector: every write to the carried vector follows the last `?` of the body
+            struct T { found: bool }
+            impl<'ast> syn::visit::Visit<'ast> for T {
+                fn visit_expr_try(&mut self, t: &'ast ExprTry) { self.found = true; syn::visit::visit_expr_try(self, t); }
+            }
+            let mut last_try: Option<usize> = None;
+            let mut first_write: Option<usize> = None;
+            for (i, st) in fl.body.stmts.iter().enumerate() {
+                let mut t = T { found: false };
+                syn::visit::Visit::visit_stmt(&mut t, st);
+                if t.found { last_try = Some(i); }
+                let b = Block { brace_token: Default::default(), stmts: vec![st.clone()] };
+                if !self.loop_state(&b).is_empty() && first_write.is_none() { first_write = Some(i); }
+            }
+            if let (Some(t), Some(w)) = (last_try, first_write) {
+                if w <= t {
+                    return Err("collector loop that writes its vector before its last `?`".into());
+                }
+            }
+            match &it {
+                It::Range(lo, hi) if state.len() == 1 => self.emit(format!("Rs.X.forRangeK {lo} {hi} ({body_name} ops eo{cap_args}) {st_val}")),
+                _ => return Err("collector loop shape".into()),
+            }
+            return Ok(());
+        }
         let t = self.fresh();
         match &it {
             It::Range(lo, hi) => self.emit(format!("let {t} ← Rs.X.forRange {lo} {hi} ({body_name} ops eo{cap_args}) {st_val}")),
@@ -651,6 +747,9 @@ impl X {
                 let init = l.init.as_ref().ok_or("let without a value")?;
                 if init.diverge.is_some() {
                     return Err("let-else".into());
+                }
+                if let Some(()) = self.let_result(&v, mutable, &init.expr)? {
+                    return Ok(());
                 }
                 let (a, k) = self.expr(&init.expr)?;
                 let (a, ty) = match &k {
@@ -816,7 +915,10 @@ fn find_fn<'a>(all: &[&'a Item], name: &str) -> Option<(&'a Signature, &'a Block
 #[allow(clippy::too_many_arguments)]
 fn translate_one(lean_name: &str, sig: &Signature, block: &Block, self_k: Option<(K, String)>, locals: &HashMap<String, (String, Vec<(K, String)>)>) -> R<(String, EInfo)> {
     let ek = result_kind(&sig.output)?;
-    let mut x = X { lean_name: lean_name.to_string(), lines: vec![], indent: 1, n: 0, vars: HashMap::new(), zip_result: ek == ErrK::Zip, aux: vec![], n_loops: 0, ret_extra: vec![], locals: locals.clone(), body: Some(block.clone()) };
+    let mut x = X { lean_name: lean_name.to_string(), lines: vec![], indent: 1, n: 0, vars: HashMap::new(), zip_result: ek == ErrK::Zip, aux: vec![], n_loops: 0, ret_extra: vec![], locals: locals.clone(), body: Some(block.clone()), k_loop: false };
+    // a collector (`Basic/RsX.lean`): a method of the seekable archive with a `&mut Vec` parameter
+    let collector = matches!(&self_k, Some((K::Src, _))) && sig.inputs.iter().any(|a| matches!(a, FnArg::Typed(t) if matches!(&*t.ty, Type::Reference(r) if r.mutability.is_some())));
+    let mut k_ty = String::new();
     let mut params = String::new();
     let mut ptys = vec![];
     let mut ret_tys: Vec<String> = vec![];
@@ -843,7 +945,14 @@ fn translate_one(lean_name: &str, sig: &Signature, block: &Block, self_k: Option
                 let mutable = by_mut_ref || matches!(&*t.pat, Pat::Ident(id) if id.mutability.is_some());
                 write!(params, " ({n} : {lt})").unwrap();
                 ptys.push(lt.clone());
-                x.vars.insert(n.clone(), (k, lt.clone(), mutable));
+                x.vars.insert(n.clone(), (k.clone(), lt.clone(), mutable));
+                if collector && by_mut_ref {
+                    if k != K::Vec || !k_ty.is_empty() {
+                        return Err("collector with a `&mut` parameter other than its one vector".into());
+                    }
+                    k_ty = lt;
+                    continue;
+                }
                 if mutable {
                     x.emit(format!("let mut {n} := {n}"));
                 }
@@ -853,6 +962,27 @@ fn translate_one(lean_name: &str, sig: &Signature, block: &Block, self_k: Option
                 }
             }
         }
+    }
+    if collector {
+        // exactly: `for i in lo..hi { .. }` and the tail `Ok(())`
+        let stmts: Vec<&Stmt> = block.stmts.iter().filter(|s| !matches!(s, Stmt::Item(Item::Use(_)))).collect();
+        let ok_tail = |s: &Stmt| matches!(s, Stmt::Expr(Expr::Call(c), None) if matches!(&*c.func, Expr::Path(p) if segs(&p.path) == ["Ok"]) && c.args.len() == 1 && matches!(&c.args[0], Expr::Tuple(t) if t.elems.is_empty()));
+        match stmts.as_slice() {
+            [Stmt::Expr(Expr::ForLoop(fl), _), tail] if ok_tail(tail) && fl.label.is_none() && cfg_on(&fl.attrs) => {
+                x.k_loop = true;
+                x.for_loop(fl)?;
+            }
+            _ => return Err("collector whose body is not one `for` loop and `Ok(())`".into()),
+        }
+        let mut text = String::new();
+        for a in &x.aux {
+            text += a;
+            text.push('\n');
+        }
+        writeln!(text, "def {lean_name} {TPARAMS}{params} : Rs.X.K W {} {k_ty} :=", x.err_ty()).unwrap();
+        text += &x.lines.join("\n");
+        text.push('\n');
+        return Ok((text, EInfo { err: ek, params: ptys, lean: lean_name.to_string(), collector: true }));
     }
     x.block(block)?;
     let ret_ty = if ret_tys.is_empty() { "Unit".to_string() } else { format!("(Unit × {})", ret_tys.join(" × ")) };
@@ -864,7 +994,7 @@ fn translate_one(lean_name: &str, sig: &Signature, block: &Block, self_k: Option
     writeln!(text, "def {lean_name} {TPARAMS}{params} : Rs.X W {} {ret_ty} := do", x.err_ty()).unwrap();
     text += &x.lines.join("\n");
     text.push('\n');
-    Ok((text, EInfo { err: ek, params: ptys }))
+    Ok((text, EInfo { err: ek, params: ptys, lean: lean_name.to_string(), collector: false }))
 }
 
 pub fn translate_efn(all: &[&Item], name: &str) -> R<(String, String, usize, usize)> {
